@@ -138,6 +138,55 @@ theorem deliver_stable (cI cA : Cfg) (sI sA idA : Atom) :
       simp [deliver, round, start, accept, hc, hn, hn']
   · simp [deliver, round, start, accept, hc]
 
+/-- what the Join initiator requires of the reply -/
+theorem join_ok (cfg : Cfg) (s : Atom) (id : Field) (inbox : List Msg)
+    (h : isOk (join cfg s id inbox).res = true) :
+    ∃ i p dg rest, inbox = .accept i p dg :: rest ∧ dg = [H [H (id ++ [s, cfg.cookie]), cfg.cookie]] := by
+  cases inbox with
+  | nil => simp [join, isOk] at h
+  | cons m rest =>
+    cases m with
+    | accept i p dg =>
+      by_cases hd : dg = [H [H (id ++ [s, cfg.cookie]), cfg.cookie]]
+      · exact ⟨i, p, dg, rest, rfl, hd⟩
+      · simp [join, isOk, hd] at h
+    | hello _ _ => simp [join, isOk] at h
+    | intro _ _ => simp [join, isOk] at h
+    | join _ _ _ _ => simp [join, isOk] at h
+    | other => simp [join, isOk] at h
+
+/-- a node adding a link to its connection cannot be answered by someone without the cookie: the reply
+    digest covers the Join digest, which covers the initiator's fresh salt -/
+theorem join_initiator_not_fooled (cfg : Cfg) (c : Nat) (hcfg : cfg.cookie = .cookie c)
+    (K : Atom → Prop) (adv : Nat → Prop) (s idn : Nat)
+    (hk : ¬ K (.cookie c)) (hfresh : ∀ t, K t → t.occurs s = false)
+    (inbox : List Msg)
+    (hder : ∀ i p dg, inbox.head? = some (.accept i p dg) →
+      DerivF (learn K ((join cfg (.nonce s) [.nonce idn] []).sent.flatMap Msg.atoms)) adv dg) :
+    isOk (join cfg (.nonce s) [.nonce idn] inbox).res = false := by
+  cases hok : isOk (join cfg (.nonce s) [.nonce idn] inbox).res with
+  | false => rfl
+  | true =>
+    exfalso
+    obtain ⟨i, p, dg, rest, rfl, hd⟩ := join_ok _ _ _ _ hok
+    subst hd
+    have h1 := hder i p _ rfl _ (List.mem_singleton.mpr rfl)
+    simp only [join, join_digest, hcfg, List.flatMap_cons, Msg.atoms, List.flatMap_nil, List.append_nil,
+      List.cons_append, List.nil_append] at h1
+    have hk' : ¬ learn K [Atom.nonce idn, Atom.nonce s, H [Atom.nonce idn, Atom.nonce s, Atom.cookie c]] (.cookie c) := by
+      intro h; rcases h with h | h
+      · exact hk h
+      · simp at h
+    have h2 : Derivable (learn K [Atom.nonce idn, Atom.nonce s, H [Atom.nonce idn, Atom.nonce s, Atom.cookie c]]) adv
+        (H ([H [Atom.nonce idn, Atom.nonce s, Atom.cookie c]] ++ [Atom.cookie c])) := by
+      simpa using h1
+    rcases hash_cookie_known hk' h2 with h | h
+    · have := hfresh _ h; simp at this
+    · simp only [List.mem_cons, H_ne_nonce, H_inj, List.not_mem_nil, or_false, false_or] at h
+      have := congrArg List.length h
+      simp at this
+
+
 /-- what the acceptor requires of a Join -/
 theorem accept_join_ok (cfg : Cfg) (s id : Atom) (node : Nat) (cid sj dj : Field) (rest : List Msg) :
     isOk (accept cfg s id (.join node cid sj dj :: rest)).res = true ↔ dj = [H (cid ++ sj ++ [cfg.cookie])] := by
